@@ -3,6 +3,8 @@ package server
 import (
 	"crypto"
 
+	"github.com/cbeuw/Cloak/internal/common"
+
 	"github.com/cbeuw/Cloak/internal/zzverif/vapi"
 	"golang.org/x/crypto/curve25519"
 )
@@ -133,4 +135,45 @@ func VerifC07Tamper() {
 	}
 	vapi.Assert(c07Present(sta, ws, eph, ct) != nil, "C07: a modified authentication payload is never accepted")
 	vapi.Reach("tamper-end")
+}
+
+// VerifC07Init: the set of UIDs the server authorises without a database (bypass list + admin) is exactly what the
+// configuration names: for every configuration shape (admin UID present or not, 0..2 bypass UIDs, arbitrary bytes)
+// and every probe UID, IsBypass(probe) holds iff the probe is one of the configured UIDs.
+func VerifC07Init() {
+	vapi.SleepBlocks(true)
+	raw := RawConfig{RedirAddr: "203.0.113.7", PrivateKey: vapi.Bytes("pv", 32), ProxyBook: map[string][]string{}}
+	hasAdmin := vapi.Pick("admin", 2) == 1
+	var admin []byte
+	if hasAdmin {
+		admin = vapi.Bytes("adminuid", 16)
+		raw.AdminUID = admin
+	}
+	nb := vapi.Pick("nbypass", 3)
+	names := []string{"b0", "b1"}
+	var bypass [][]byte
+	for i := 0; i < nb; i++ {
+		b := vapi.Bytes(names[i], 16)
+		bypass = append(bypass, b)
+		raw.BypassUID = append(raw.BypassUID, b)
+	}
+	sta, err := InitState(raw, common.WorldState{Rand: vTape{}, Now: vNow})
+	vapi.Assert(err == nil && sta != nil, "C07: a complete server configuration is accepted")
+	probe := vapi.Bytes("probe", 16)
+	want := false
+	if hasAdmin {
+		want = vapi.Or(want, vapi.BytesEq(probe, admin))
+	}
+	for _, b := range bypass {
+		want = vapi.Or(want, vapi.BytesEq(probe, b))
+	}
+	got := sta.IsBypass(probe)
+	vapi.Assert(got == want, "C07: a UID is authorised without the database iff the configuration names it (bypass list or admin UID)")
+	vapi.Assert(len(sta.BypassUID) <= nb+1, "C07: nothing but the configured UIDs is on the bypass list")
+	if hasAdmin {
+		vapi.Assert(vapi.BytesEq(sta.AdminUID, admin), "C07: admin UID taken from the configuration")
+	} else {
+		vapi.Assert(len(sta.AdminUID) == 0, "C07: no admin UID unless configured")
+	}
+	vapi.Reach("init-end")
 }
